@@ -60,6 +60,18 @@ CHECKS = {
             "for real channels.",
             "TLA+ spec + TLC exhaustive/simulate generation, replay into real server.Run + bus",
             "DESIGN.md §3 C06"),
+    "C07": ("model_checking",
+            "RotateFile.tla models Send/Flush (any batching)/placement with rotation to a fresh name/clock ticks/external remove and "
+            "rename; TLC checks AllKept, SizeOK, NamesDistinct, NoOverwrite and the liveness EventuallyFlushed on the strict model "
+            "and requires the two transcribed deviations to violate them; TLC enumerates all sequences of <= 2 steps over 117 batches "
+            "of boundary lengths (14k scenarios) and samples longer ones; each is replayed on the real fschannel.OpenRotateFile/Write "
+            "(several rotations per second happen naturally) and the property's predicates are evaluated on the files on disk after "
+            "every step; bursts through the real FileBackend (Send, writer goroutine, 1 s flush) incl. an unopenable destination "
+            "under a watchdog.",
+            "Line = JSON object padded to an exact length; operator-deleted lines are not counted as lost; verdicts are the "
+            "property's predicates on real files, the model's exact placement is compared only as drift information.",
+            "TLA+ spec + TLC (safety + liveness, deviations as model regressions), exhaustive/simulated scenario replay on the real file channel",
+            "DESIGN.md §3 C07"),
 }
 
 NOT_YET = "check not built yet in this session (see DESIGN.md §10 for the order of construction)"
